@@ -11,6 +11,8 @@ Driver commands for C16 (text protocol, one request line -> one answer line).
   np_tonumpy <Class> <messages>            -> dict | unmodelled | bad-args
   np_generic <f,f,…|-> <messages>          -> dict
   np_rmnan <0|1> <k,k,…|-> <dict>          -> dict | unmodelled
+  np_mdstep <0|1> <k,k,…|-> <count> <first> <last> <cached dict> <converted dict>
+                                           -> dict | raises | unmodelled     (first/last: f<hex> | ! = no such attribute)
   np_table <Class>                         -> the (include-expanded) table, for cross-checking the translator
 -/
 import FeVerif.Generated.Numpy
@@ -177,6 +179,24 @@ def cmdRmNan (args : List String) : String :=
     | none => "bad-args"
   | _ => "bad-args"
 
+def parseEnd (s : String) : Option (Option Nat) :=
+  if s == "!" || s == "-" then some none else
+  match parseScalar s with
+  | some (.flt b) => some (some b)
+  | _ => none
+
+def cmdMdStep (args : List String) : String :=
+  match args with
+  | [flag, ntd, n, f, l, cached, conv] =>
+    match n.toNat?, parseEnd f, parseEnd l, parseDict cached, parseDict conv with
+    | some n, some f, some l, some cached, some conv =>
+      match mdToNumpy (flag == "1") (parseNames ntd) cached ⟨n, f, l⟩ conv with
+      | .ok d => showDict [] d
+      | .raises => "raises"
+      | .unmodelled => "unmodelled"
+    | _, _, _, _, _ => "bad-args"
+  | _ => "bad-args"
+
 end NumpyDrv
 
 def dispatchNumpy (cmd : String) (args : List String) : Option String :=
@@ -184,6 +204,7 @@ def dispatchNumpy (cmd : String) (args : List String) : Option String :=
   | "np_tonumpy" => some (NumpyDrv.cmdToNumpy args)
   | "np_generic" => some (NumpyDrv.cmdGeneric args)
   | "np_rmnan" => some (NumpyDrv.cmdRmNan args)
+  | "np_mdstep" => some (NumpyDrv.cmdMdStep args)
   | "np_table" => some (NumpyDrv.cmdTable args)
   | _ => none
 
